@@ -7,6 +7,8 @@ from .vecdiff import *
 from .adapters import diff_variants_in
 from . import wakers
 
+CRATES = (UT,)
+
 META = {
     "explanation": (
         "Static decision on MIR: R10.1 both dispatch closures (filter, filter_map) switch over all 11 diff kinds and route each kind to the same handler "
